@@ -201,7 +201,13 @@ func renameKey(r *Rng, root map[string]interface{}) string {
 
 func targetedSchemaMutation(r *Rng, root map[string]interface{}) string {
 	idx, _ := root["index"].(map[string]interface{})
+	if idx == nil {
+		return "noop" // an earlier mutation already replaced the index
+	}
 	ids, _ := idx["object-ids"].(map[string]interface{})
+	if ids == nil {
+		ids = map[string]interface{}{}
+	}
 	fields, _ := idx["fields"].(map[string]interface{})
 	fkeys := mapKeys(fields)
 	switch r.Intn(9) {
